@@ -2776,6 +2776,11 @@ class Array:
         # now test compatibility of self_part with `other`
         if self_part.rank != other.rank:
             raise IndexError('wrong number of indices')
+        if any(other.legs[ax].block_number != self_part.legs[ax].block_number for ax, _ in permutations):
+            # `permute` bunches the permuted leg, but we need the same charge blocks as in `self_part`
+            other = Array.from_ndarray(
+                other.to_ndarray(), self_part.legs, other.dtype, other.qtotal, labels=other.get_leg_labels()
+            )
         for pl, ol in zip(self_part.legs, other.legs):
             pl.test_contractible(ol.conj())
         if np.any(self_part.qtotal != other.qtotal):
